@@ -80,7 +80,7 @@ func (w *Worker) exec(fr *frame, ins ssa.Instruction) {
 		mt := ins.Type().Underlying().(*types.Map)
 		fr.env[ins] = &MapV{kt: mt.Key(), vt: mt.Elem()}
 	case *ssa.MakeChan:
-		fr.env[ins] = OpaqueV{"chan"}
+		fr.env[ins] = &ChanV{cap: w.concInt(w.get(fr, ins.Size).(*Term), "chan size")}
 	case *ssa.Range:
 		fr.env[ins] = w.rangeIter(w.get(fr, ins.X))
 	case *ssa.Next:
@@ -107,9 +107,38 @@ func (w *Worker) exec(fr *frame, ins ssa.Instruction) {
 		if w.inInit {
 			return
 		}
-		w.fail("channel send not supported at %s", w.curPos())
+		ch, ok := w.get(fr, ins.Chan).(*ChanV)
+		if !ok || ch == nil {
+			w.fail("send on unsupported channel at %s", w.curPos())
+		}
+		w.chanSend(ch, w.get(fr, ins.X))
 	case *ssa.Select:
-		w.fail("select not supported at %s", w.curPos())
+		// sequential model: the first send state on a modelled channel is taken
+		taken := -1
+		for k, st := range ins.States {
+			if st.Dir == types.SendOnly {
+				if ch, ok := w.get(fr, st.Chan).(*ChanV); ok && ch != nil {
+					w.chanSend(ch, w.get(fr, st.Send))
+					taken = k
+					break
+				}
+			}
+		}
+		if taken < 0 {
+			if !ins.Blocking {
+				taken = -1
+			} else {
+				w.fail("select without a modelled send state at %s", w.curPos())
+			}
+		}
+		tt := ins.Type().(*types.Tuple)
+		tv := make(TupleV, tt.Len())
+		tv[0] = w.B.Const(uint64(int64(taken)), 64)
+		tv[1] = w.B.False
+		for k := 2; k < tt.Len(); k++ {
+			tv[k] = w.zero(tt.At(k).Type())
+		}
+		fr.env[ins] = tv
 	case *ssa.SliceToArrayPointer:
 		s := w.get(fr, ins.X).(SliceV)
 		n := int(ins.Type().(*types.Pointer).Elem().Underlying().(*types.Array).Len())
@@ -121,6 +150,18 @@ func (w *Worker) exec(fr *frame, ins ssa.Instruction) {
 	default:
 		w.fail("unsupported instruction %T at %s", ins, w.curPos())
 	}
+}
+
+func (w *Worker) chanSend(ch *ChanV, v Value) {
+	if w.inMerge > 0 {
+		panic(mergeAbort{"channel send in merged region"})
+	}
+	nb := append(append([]Value{}, ch.buf...), v)
+	p := new(Value)
+	*p = SliceV{s: ch.buf}
+	// journal through a closure-free trick: store old buffer in a slot we can restore
+	w.journal = append(w.journal, jent{ch: ch, chOld: ch.buf})
+	ch.buf = nb
 }
 
 func (w *Worker) concInt(t *Term, what string) int {
@@ -447,7 +488,17 @@ func (w *Worker) unop(ins *ssa.UnOp, x Value) Value {
 	case token.XOR:
 		return w.B.Un(OpNot, x.(*Term))
 	case token.ARROW:
-		w.fail("channel receive not supported at %s", w.curPos())
+		ch, ok := x.(*ChanV)
+		if !ok || ch == nil || len(ch.buf) == 0 {
+			w.fail("channel receive would block / unsupported channel at %s", w.curPos())
+		}
+		v := ch.buf[0]
+		w.journal = append(w.journal, jent{ch: ch, chOld: ch.buf})
+		ch.buf = ch.buf[1:]
+		if ins.CommaOk {
+			return TupleV{v, w.B.True}
+		}
+		return v
 	}
 	w.fail("unop %s on %T", ins.Op, x)
 	return nil
@@ -1059,6 +1110,11 @@ func (w *Worker) callBuiltin(fn *ssa.Builtin, args []Value, site ssa.CallInstruc
 			return b.Const(uint64(len(x.entries)), 64)
 		case Ptr:
 			return b.Const(uint64(len((*x.p).(ArrayV))), 64)
+		case *ChanV:
+			if x == nil {
+				return b.Const(0, 64)
+			}
+			return b.Const(uint64(len(x.buf)), 64)
 		}
 	case "cap":
 		switch x := args[0].(type) {
